@@ -6,6 +6,7 @@ package c16
 import (
 	"bytes"
 	"fmt"
+	"strings"
 	"testing"
 
 	"github.com/tjfoc/gmsm/gmtls"
@@ -22,7 +23,7 @@ var R = hx.NewRecorder("C16", "cases = histories (rapid state machine) of up to 
 	"oracle = model of what must / must not / may resume; DidResume equal on both ends; a resumed GMSSL connection must decode under the ORIGINAL master secret with the new randoms (independent passive decoder), keep version, suite and peer certificates; a non-resumed one must be a full handshake; data round trip after every connection; non-trivial = a connection that offered a ticket; distinct by hash of the history")
 
 func TestMain(m *testing.M) {
-	R.Require("resumed_gm", "resumed_tls12", "rotated_old_key_accepted", "rotated_dropped", "tampered", "evicted", "policy_changed", "tickets_disabled", "server_switched", "suite_removed", "must_resume", "must_not_resume")
+	R.Require("resumed_gm", "resumed_tls12", "rotated_old_key_accepted", "rotated_dropped", "tampered", "evicted", "policy_now_forbids_certs", "policy_now_requires_certs", "tickets_disabled", "server_switched", "suite_removed", "must_resume", "must_not_resume")
 	hx.Main(m, R)
 }
 
@@ -107,7 +108,7 @@ func TestC16_Histories(t *testing.T) {
 		maxConns = 12
 	}
 	hn := 0
-	hx.Check(t, hx.N(250, 3000), func(t *rapid.T) {
+	hx.Check(t, hx.N(400, 4000), func(t *rapid.T) {
 		hn++
 		gm := rapid.Bool().Draw(t, "gmssl")
 		cacheCap := rapid.IntRange(1, 3).Draw(t, "cacheCap")
@@ -125,6 +126,8 @@ func TestC16_Histories(t *testing.T) {
 		if gen.OneIn(t, "defaultsuites", 4) {
 			srv[0].suites = nil
 		}
+		srv[0].clientAuth = gmtls.ClientAuthType(gen.Uniform(t, "auth0", 5))
+		srv[1].clientAuth = gmtls.ClientAuthType(gen.Uniform(t, "auth1", 5))
 		nextKey := 2
 		conns := 0
 		var hist []string
@@ -201,6 +204,11 @@ func TestC16_Histories(t *testing.T) {
 				if cok && sok {
 					t.Fatalf("connection completed although the server requires a client certificate the client does not have\n%s", desc)
 				}
+				if cached != nil && strings.HasPrefix(why, "policy now requires") {
+					offered++
+					classes["policy_now_requires_certs"] = true
+					classes["must_not_resume"] = true
+				}
 				return
 			}
 			if !cok || !sok {
@@ -232,8 +240,11 @@ func TestC16_Histories(t *testing.T) {
 				case "suite no longer supported by the server":
 					classes["suite_removed"] = true
 				}
-				if why != "no cached session" && (len(why) > 6 && (why[:7] == "session" || why[:6] == "policy")) {
-					classes["policy_changed"] = true
+				if strings.HasPrefix(why, "session carries") {
+					classes["policy_now_forbids_certs"] = true
+				}
+				if strings.HasPrefix(why, "policy now requires") {
+					classes["policy_now_requires_certs"] = true
 				}
 			case "must":
 				if !cs.DidResume {
@@ -318,6 +329,49 @@ func TestC16_Histories(t *testing.T) {
 				}
 				name := rapid.SampledFrom(model.order).Draw(t, "cachedName")
 				connect(t, model.m[name].server, name)
+			},
+			// one invalidating (or deliberately harmless) change aimed at a cached session, then reconnect
+			"changeThenReconnect": func(t *rapid.T) {
+				if conns >= maxConns || len(model.order) == 0 {
+					t.Skip("nothing cached")
+				}
+				name := rapid.SampledFrom(model.order).Draw(t, "cachedName")
+				cs := model.m[name]
+				s := srv[cs.server]
+				si := cs.server
+				switch k := rapid.SampledFrom([]string{"rotate_keep", "rotate_drop", "disable", "remove_suite", "auth_conflict", "auth_compatible", "other_server"}).Draw(t, "change"); k {
+				case "rotate_keep":
+					s.keys = append([][32]byte{keyN(nextKey)}, s.keys...)
+					nextKey++
+					if len(s.keys) > 3 {
+						s.keys = s.keys[:3]
+					}
+				case "rotate_drop":
+					s.keys = [][32]byte{keyN(nextKey)}
+					nextKey++
+				case "disable":
+					s.disabled = true
+				case "remove_suite":
+					var rest []uint16
+					for _, x := range suiteChoices {
+						if x != cs.suite {
+							rest = append(rest, x)
+						}
+					}
+					s.suites = rest
+				case "auth_conflict":
+					if cs.hadClientCert {
+						s.clientAuth = gmtls.NoClientCert
+					} else {
+						s.clientAuth = gmtls.ClientAuthType(3 + gen.Uniform(t, "req", 2))
+					}
+				case "auth_compatible":
+					s.clientAuth = gmtls.ClientAuthType(1 + gen.Uniform(t, "compat", 2))
+				case "other_server":
+					si = 1 - si
+				}
+				hist = append(hist, "change")
+				connect(t, si, name)
 			},
 			"rotate": func(t *rapid.T) {
 				s := srv[rapid.IntRange(0, 1).Draw(t, "server")]
